@@ -637,7 +637,8 @@ impl Property for C07 {
                         return Outcome::fail("trailing-blank-exit-status", format!("a trailing blank is left behind but the binary{} exits with {:?}\n{err}", if with_check { " (--check, path input)" } else { "" }, res.status.code())).nontrivial(true);
                     }
                     for (l, k) in &reported {
-                        if *k == Kind::Trailing && !err.contains(&format!("{marker}:{l}:")) {
+                        // (the line is looked up in the plain run only: the --check run is judged on its exit status)
+                        if *k == Kind::Trailing && !with_check && !err.contains(&format!("{marker}:{l}:")) {
                             return Outcome::fail("trailing-blank-not-printed", format!("line {l} is not named on stderr\n{err}")).nontrivial(true);
                         }
                     }
